@@ -249,6 +249,9 @@ class Ctx:
         g = z3.simplify(goal)
         # a conjunction is proved conjunct by conjunct (smaller queries; same clause name)
         parts = g.children() if z3.is_and(g) else [g]
+        meta = dict(meta or {})
+        if getattr(self, "exit_rel", None) is not None:
+            meta.setdefault("exit", self.exit_rel)
         for part in parts:
             ob = Obligation(clause, part, list(self.pc), tuple(k for k, _ in self.trail), meta, list(self.spec_apps))
             ob.entry = getattr(self, "entry_args", None)
